@@ -69,6 +69,10 @@ def reference_validity(model, cfg):
     prov = [p.name for p in facts.provides]
     req = [p.name for p in facts.requires]
     inj = [p.name for p in facts.injected]
+    for side in ('provides', 'requires'):
+        for sel in cfg[side]:
+            if not isinstance(sel, str) and (len(sel) == 0 or '' in sel):
+                return ('INVALID', 'ports:empty-selection')     # a name set is non-empty and holds names
     wp = R.resolve_side('provides', cfg['provides'][0], cfg['provides'][1], prov, ())
     wr = R.resolve_side('requires', cfg['requires'][0], cfg['requires'][1], req, inj)
     for w in (wp, wr):
@@ -231,8 +235,19 @@ def faults(model, cfg, facts):
             'unknown': [['zz'], 'REMAINING'], 'unknown2': ['REMAINING', ['zz']],
             'all+rem': ['ALL', 'REMAINING'], 'all+all': ['ALL', 'ALL'], 'none+none': ['NONE', 'NONE'],
             'rem+rem': ['REMAINING', 'REMAINING'],
+            'empty-set': [[], 'REMAINING'], 'empty-set2': ['REMAINING', []], 'empty-name': [[''], 'REMAINING'],
         }
         if names:
+            variants['empty-name+real'] = ['REMAINING', ['', names[0]]]
+        if names:
+            # other spellings of an assignment that gives every port of this side one semantics (valid ones
+            # included: the reference decides) - explicit names, REMAINING next to NONE, REMAINING next to names
+            variants['explicit-mts'] = ['NONE', list(names)]
+            variants['explicit-sts'] = [list(names), 'NONE']
+            variants['explicit-mts-reversed'] = ['NONE', list(reversed(names))]
+            variants['rem-mts'] = ['NONE', 'REMAINING']
+            variants['rem-sts'] = ['REMAINING', 'NONE']
+            variants['first+rem-mts'] = ['NONE', names[:1]] if len(names) == 1 else [names[1:], 'REMAINING']
             variants['both'] = [names[:1], names[:1]]
             variants['all+set'] = ['ALL', names[:1]]
             variants['set+all'] = [names[:1], 'ALL']
